@@ -16,12 +16,14 @@
 (*   arr   an array of n nulls                   (BSON: {"a": [..]})        *)
 (*   map   a map of n members, 5-digit decimal names, null values           *)
 (*   key   a map of one member whose name has n characters, null value      *)
+(*   strs  an array of n text strings of 100 ASCII characters each (outputs  *)
+(*         of tens of KiB made of medium-sized items: stream sink buffers)   *)
 (* Used by Trace_C06big (encoder output must be one of the forms) and       *)
 (* MC_BigLen (every form, and malformed neighbours, as decoder input).      *)
 (***************************************************************************)
 EXTENDS Naturals, Sequences
 
-Shapes == {"tstr", "bstr", "arr", "map", "key"}
+Shapes == {"tstr", "bstr", "arr", "map", "key", "strs"}
 Formats == {"cbor", "msgpack", "ubjson", "bson"}
 
 \* w-byte big-endian representation of n < 2^24
@@ -55,6 +57,7 @@ CborForms(shape, n) ==
     [] shape = "arr" -> {Form(h, 1, 0, <<>>) : h \in CHeads(4, n)} \cup {Form(<<159>>, 1, 0, <<255>>)}                             \* n x f6
     [] shape = "map" -> {Form(h, 7, 0, <<>>) : h \in CHeads(5, n)} \cup {Form(<<191>>, 7, 0, <<255>>)}                             \* n x (65 d d d d d f6)
     [] shape = "key" -> {Form(<<161>> \o h, 1, 1, <<>>) : h \in CHeads(3, n)} \cup {Form(<<191>> \o h, 1, 1, <<255>>) : h \in CHeads(3, n)}
+    [] shape = "strs" -> {Form(h, 102, 0, <<>>) : h \in CHeads(4, n)} \cup {Form(<<159>>, 102, 0, <<255>>)}                         \* n x (78 64 + 100 bytes)
 
 \* MessagePack
 MStr(n) == (IF n < 32 THEN {<<160 + n>>} ELSE {}) \cup (IF n < 256 THEN {<<217>> \o BE(n, 1)} ELSE {})
@@ -68,6 +71,7 @@ MsgpackForms(shape, n) ==
     [] shape = "arr" -> {Form(h, 1, 0, <<>>) : h \in MArr(n)}                     \* n x c0
     [] shape = "map" -> {Form(h, 7, 0, <<>>) : h \in MMap(n)}                     \* n x (a5 d d d d d c0)
     [] shape = "key" -> {Form(<<129>> \o h, 1, 1, <<>>) : h \in MStr(n)}
+    [] shape = "strs" -> {Form(h, 102, 0, <<>>) : h \in MArr(n)}                   \* n x (d9 64 + 100 bytes)
 
 \* UBJSON: lengths are integer values of type i (int8) U (uint8) I (int16) l (int32) L (int64), all but U signed, big-endian
 ULen(n) == (IF n < 128 THEN {<<105, n>>} ELSE {}) \cup (IF n < 256 THEN {<<85, n>>} ELSE {})
@@ -85,12 +89,14 @@ UbjsonFormsL(shape, n, L(_)) ==
     [] shape = "key" -> {Form(<<123>> \o h, 1, 1, <<125>>) : h \in L(n)}                             \* { len name Z }
                   \cup {Form(<<123, 35, c, 1>> \o h, 1, 1, <<>>) : h \in L(n), c \in {85, 105}}
                   \cup {Form(<<123, 36, 90, 35, c, 1>> \o h, 1, 0, <<>>) : h \in L(n), c \in {85, 105}}
-UbjsonForms(shape, n) == UbjsonFormsL(shape, n, ULen)
+UbjsonForms(shape, n) == (IF shape = "strs" THEN {Form(<<91, 35>> \o h, 103, 0, <<>>) : h \in ULen(n)} \cup {Form(<<91>>, 103, 0, <<93>>)}      \* n x (S U|i 100 + 100 bytes)
+                                           \cup {Form(<<91, 36, 83, 35>> \o h, 102, 0, <<>>) : h \in ULen(n)}                                   \* [$S#n : n x (len + 100 bytes)
+                          ELSE UbjsonFormsL(shape, n, ULen))
                     \cup (CASE shape = "bstr" -> {Form(<<91>>, 2, 0, <<93>>)}                        \* [ .. ] uncounted
                             [] shape = "arr" -> {Form(<<91>>, 1, 0, <<93>>)}
                             [] shape = "map" -> {Form(<<123>>, 8, 0, <<125>>)}
                             [] OTHER -> {})
-UbjsonBadForms(shape, n) == UbjsonFormsL(shape, n, UBadLen)
+UbjsonBadForms(shape, n) == IF shape = "strs" THEN {} ELSE UbjsonFormsL(shape, n, UBadLen)
 
 \* BSON: document ::= int32 e_list 00; the root is a document.  AnyByte (256) in a head = any byte there (binary subtype)
 AnyByte == 256
@@ -100,6 +106,7 @@ BsonForms(shape, n) ==
     [] shape = "arr" -> {Form(LE4(DigitSum(n) + (2 * n) + 13) \o <<4, 97, 0>> \o LE4(DigitSum(n) + (2 * n) + 5), 0, DigitSum(n) + (2 * n), <<0, 0>>)}   \* n x (0a digits 00)
     [] shape = "map" -> {Form(LE4((7 * n) + 5), 7, 0, <<0>>)}                                          \* n x (0a d d d d d 00)
     [] shape = "key" -> {Form(LE4(n + 7) \o <<10>>, 1, 1, <<0>>)}                                      \* 0a name 00 | 00
+    [] shape = "strs" -> {Form(LE4(DigitSum(n) + (107 * n) + 13) \o <<4, 97, 0>> \o LE4(DigitSum(n) + (107 * n) + 5), 0, DigitSum(n) + (107 * n), <<0, 0>>)}   \* n x (02 digits 00 int32(101) 100 bytes 00)
 \* a document length that is one too small / too large
 BsonBadForms(shape, n) == {[fm EXCEPT !.head = LE4(((fm.head[1] + (256 * fm.head[2]) + (65536 * fm.head[3])) + d) - 1) \o SubSeq(fm.head, 5, Len(fm.head))] :
                              fm \in BsonForms(shape, n), d \in {0, 2}}
